@@ -119,6 +119,46 @@ def chain_contract(rows, stack=False):
     return None
 
 
+def _none_as_empty(x):
+    return [] if x is None else x
+
+
+def empty_contract(kind):
+    """an array without atoms has no residues and no chains, in every view"""
+    if kind == "filtered":
+        a = build([ROWS[0], ROWS[3]])
+        a = a[a.chain_id == "Z"]
+    elif kind == "AtomArray(0)":
+        a = struc.AtomArray(0)
+    else:
+        a = struc.AtomArrayStack(2, 0)
+    checks = [("get_residue_starts", lambda: struc.get_residue_starts(a).tolist(), []),
+              ("get_residue_starts(add_exclusive_stop)", lambda: struc.get_residue_starts(a, add_exclusive_stop=True).tolist(), [0]),
+              ("get_residue_count", lambda: struc.get_residue_count(a), 0),
+              ("get_residues", lambda: [x.tolist() for x in struc.get_residues(a)], [[], []]),
+              ("residue_iter", lambda: len(list(struc.residue_iter(a))), 0),
+              ("get_chain_starts", lambda: struc.get_chain_starts(a).tolist(), []),
+              ("get_chain_count", lambda: struc.get_chain_count(a), 0),
+              ("get_chains", lambda: struc.get_chains(a).tolist(), []),
+              ("chain_iter", lambda: len(list(struc.chain_iter(a))), 0),
+              # (without a segment the function is never called, so no result array can be typed: None stands for 'no values')
+              ("apply_chain_wise", lambda: len(_none_as_empty(struc.apply_chain_wise(a, np.zeros(0), np.sum))), 0),
+              ("apply_residue_wise", lambda: len(_none_as_empty(struc.apply_residue_wise(a, np.zeros(0), np.sum))), 0)]
+    for name, fn, exp in checks:
+        try:
+            got = fn()
+        except Exception as e:
+            return f"{name} on an empty {kind} raised {type(e).__name__}: {e}"
+        if name.startswith("get_residue_starts(add") and got in ([], [0]):
+            continue            # both conventions describe 'no segment'
+        if got != exp:
+            return f"{name} on an empty {kind} = {got}, expected {exp}"
+    return None
+
+
+for kind in ("filtered", "AtomArray(0)", "AtomArrayStack(2, 0)"):
+    R.check("residue / chain views of an array without atoms", f"empty {kind}", {"array": kind}, lambda kind=kind: empty_contract(kind))
+
 maxn = 5 if R.thorough else 4
 for n in range(1, maxn + 1):
     for rows in itertools.product(ROWS, repeat=n):
